@@ -328,11 +328,19 @@ func (l *log) GetByTime(start time.Time) (message.Message, error) {
 	l.readersMu.RLock()
 	defer l.readersMu.RUnlock()
 
-	for i := len(l.readers) - 1; i >= 0; i-- {
+	last := len(l.readers) - 1
+	var found message.Message
+	hasFound := false
+	for i := last; i >= 0; i-- {
 		rdr := l.readers[i]
 
 		switch msg, err := rdr.GetByTime(ts, tctx); err {
 		case nil:
+			if i > 0 && msg.Time.UnixMicro() == ts {
+				// exact match, messages with the same time might end the previous segment
+				found, hasFound = msg, true
+				continue
+			}
 			return msg, nil
 		case index.ErrTimeBeforeStart:
 			// not in this segment, try the rest
@@ -340,17 +348,30 @@ func (l *log) GetByTime(start time.Time) (message.Message, error) {
 				return rdr.Get(message.OffsetOldest)
 			}
 		case index.ErrTimeAfterEnd:
+			if hasFound {
+				return found, nil
+			}
 			// time is between end of this and begin next
-			if i < len(l.readers)-1 {
+			if i < last {
 				nextRdr := l.readers[i+1]
 				return nextRdr.Get(message.OffsetOldest)
 			}
 			return message.Invalid, errTimeNotFound
+		case index.ErrTimeIndexEmpty:
+			if i == last && i > 0 {
+				// the head segment is empty, continue as if the previous segment is the last
+				last = i - 1
+				continue
+			}
+			return message.Invalid, err
 		default:
 			return message.Invalid, err
 		}
 	}
 
+	if hasFound {
+		return found, nil
+	}
 	return message.Invalid, errTimeNotFound
 }
 
